@@ -22,6 +22,8 @@ import dns.flags
 import dns.grange
 import dns.message
 import dns.name
+import dns.opcode
+import dns.rcode
 import dns.rdata
 import dns.rdataclass
 import dns.rdatatype
@@ -320,6 +322,8 @@ def impl1(case):
             return Err(105, "AssertionError")
         except Exception as e:  # noqa
             return exc_code(e)
+    if op == 63:
+        return impl_msgtext(case)
     if op == 62:
         import pC09
 
@@ -350,9 +354,82 @@ def impl1(case):
     return Err(999, "bad case")
 
 
+MT_EXC = [
+    (dns.message.UnknownHeaderField, 40), (dns.message.NoPreviousName, 41), (dns.opcode.UnknownOpcode, 42),
+    (dns.rcode.UnknownRcode, 43), (dns.rdatatype.UnknownRdatatype, 44), (dns.rdataclass.UnknownRdataclass, 45),
+    (dns.exception.UnexpectedEnd, 21), (dns.ttl.BadTTL, 23), (dns.tokenizer.UngetBufferFull, 22),
+]
+
+
+def impl_msgtext(case):
+    _, _, text, orps, origin, rel = case
+    try:
+        m = dns.message.from_text(dec(text), one_rr_per_rrset=bool(orps), origin=nl.oname(origin), relativize=bool(rel))
+    except Exception as e:  # noqa
+        for cls, code in MT_EXC:
+            if isinstance(e, cls):
+                return Err(code, type(e).__name__)
+        if type(e) is dns.exception.SyntaxError:
+            return Err(20, "SyntaxError")
+        r = nl.exc_code(e)
+        if r.code == 800 and isinstance(e, dns.exception.SyntaxError):
+            return Err(20, type(e).__name__)
+        if r.code == 900:
+            return Err(900, type(e).__name__ + ":" + str(e)[:80])
+        return r
+    upd = isinstance(m, dns.update.UpdateMessage)
+    q = [[nl.labels_of(r.name), int(r.rdtype), int(r.rdclass)] for r in m.sections[0]]
+    secs = None
+    if orps or upd:
+        secs = []
+        for si in (1, 2, 3):
+            for r in m.sections[si]:
+                secs.append([si, nl.labels_of(r.name), int(r.rdclass), int(r.rdtype), int(r.ttl), 0 if r.deleting is None else int(r.deleting), len(r)])
+    return [int(m.flags), None if m.opt is None else int(m.ednsflags), q, secs]
+
+
+_MT_TYPES = {"A", "NS", "CNAME", "SOA", "PTR", "MX", "TXT", "AAAA", "SRV", "DNAME", "ANY", "AXFR", "IXFR"}
+
+
+def msgtext_in_model(text):
+    """the fragment the executable instance covers: ASCII, TTL-like tokens in canonical decimal,
+    class IN (or the UPDATE meta classes), types of the instance's table or TYPEnnn, no generic
+    syntax for known types"""
+    if isinstance(text, list):
+        return False
+    t = bytes(text).decode("latin-1")
+    if any(ord(c) > 126 for c in t):
+        return False
+    import re as _re
+
+    for tok in _re.findall(r"[^\s()\";]+", t):
+        try:
+            v = int(tok, 0)
+            if str(v) != tok:
+                return False
+        except ValueError:
+            pass
+        u = tok.upper()
+        if u in ("CH", "HS", "INTERNET", "CHAOS", "HESIOD", "RESERVED0") or _re.fullmatch(r"CLASS\d+", u):
+            return False
+        if _re.fullmatch(r"[A-Z][A-Z0-9-]*", u) and u not in _MT_TYPES and not _re.fullmatch(r"TYPE\d+", u):
+            try:
+                dns.rdatatype.from_text(u)
+                return False          # a real type the instance's table does not have
+            except Exception:  # noqa
+                pass
+    if "\\#" in t:
+        for ln in t.split("\n"):
+            if "\\#" in ln and not _re.search(r"TYPE\d+\s+\\#", ln, _re.I):
+                return False
+    return True
+
+
 def in_model(kind, case):
     if _probe_of(case) is not None:
         return False
+    if case[0] == 63:
+        return msgtext_in_model(case[2])
     if case[0] == 40:
         return case_key(normalize(case)) not in _unmodelled
     return True
@@ -585,8 +662,72 @@ def zone_model_cases(ctx):
                     return
 
 
+MT_HDR = ["id 1234", "id 0", "id 65535", "id 65536", "id x", "opcode QUERY", "opcode UPDATE", "opcode NOTIFY", "opcode 2", "opcode 15", "opcode 16",
+          "opcode BOGUS", "rcode NOERROR", "rcode NXDOMAIN", "rcode BADVERS", "rcode 3", "rcode 4095", "rcode 4096", "rcode nope", "flags QR AA RD",
+          "flags qr tc", "flags", "flags QR XX", "edns 0", "edns 1", "edns 255", "edns 256", "eflags DO", "eflags do DO", "eflags XX", "payload 1232",
+          "payload 65535", "payload 65536", "bogus 1", "id", "opcode", "rcode \"NOERROR\"", "id 1 2"]
+MT_RR = ["www.example. 300 IN A 10.0.0.1", "www.example. IN A 10.0.0.2", "www.example. A 10.0.0.3", " 300 IN AAAA ::1", "@ 0 IN NS ns.example.",
+         "mail 4294967295 IN MX 10 mx.example.", "mail 4294967296 IN MX 10 mx", "t 60 IN TXT \"a b\" c", "s IN SRV 1 2 3 target", "x 5 IN TYPE65280 \\# 2 abcd",
+         "x 5 IN TYPE65280 \\# 3 abcd", "c IN CNAME d", "e 1 IN SOA a b 1 2 3 4 5", "p IN PTR q.", "w 7 IN A", "w 7 IN A 1.2.3", "w 7 IN BOGUS 1", "w 7 IN TYPE65536 \\# 0",
+         "w 7 IN TYPE0 \\# 0", "a.b.c. 1 IN DNAME d.e.", "( x 1 IN A 1.2.3.4 )", "x 1 IN MX ( 10 y )", "x 1 IN A 1.2.3.4 ; c", "\\065 1 IN A 1.2.3.4", "a\\ 1 IN A 1.2.3.4",
+         "l" * 64 + " 1 IN A 1.2.3.4", "x 1 IN MX 65536 y", "x 1 IN TXT \"unterminated"]
+MT_Q = ["www.example. IN A", "www.example. A", "example. IN SOA", "example. ANY ANY", " IN MX", "www.example. IN", "www.example. IN BOGUS", "www.example. IN TYPE1 x",
+        "www.example. NONE A", "example. IN SOA extra"]
+MT_UPD = ["foo ANY A", "foo ANY ANY", "foo NONE A 10.0.0.9", "foo NONE A", "foo 300 IN A 10.0.0.1", "foo ANY A 10.0.0.1", "bar 0 ANY MX", "bar 0 NONE MX 10 x", "foo 300 A 10.0.0.5"]
+
+
+def gen_msgtext(rng):
+    upd = rng.random() < 0.3
+    lines = []
+    good_hdr = ["id 1234", "opcode QUERY", "rcode NOERROR", "rcode NXDOMAIN", "rcode BADVERS", "flags QR AA RD", "flags qr", "edns 0", "eflags DO", "payload 1232", "rcode 3", "opcode 0"]
+    for _ in range(rng.choice([0, 1, 2, 3, 4])):
+        lines.append(rng.choice(good_hdr) if rng.random() < 0.8 else rng.choice(MT_HDR))
+    if upd and rng.random() < 0.9:
+        lines.insert(rng.randrange(len(lines) + 1), "opcode UPDATE")
+    secs = (["ZONE", "PREREQ", "UPDATE", "ADDITIONAL"] if upd else ["QUESTION", "ANSWER", "AUTHORITY", "ADDITIONAL"])
+    for sn in secs:
+        if rng.random() < 0.25:
+            continue
+        lines.append(";" + rng.choice([sn, sn, sn, sn.lower(), sn + " ", "HEADER", "0", "2", "3", "4", "comment"]))
+        for _ in range(rng.choice([0, 1, 1, 2, 3])):
+            if rng.random() < 0.6:
+                # mostly well-formed lines
+                if sn == "QUESTION":
+                    lines.append(rng.choice(MT_Q[:4]))
+                elif sn == "ZONE":
+                    lines.append("example. IN SOA")
+                elif upd and sn != "ADDITIONAL":
+                    lines.append(rng.choice(["foo ANY A", "foo ANY ANY", "foo NONE A 10.0.0.9", "foo 300 IN A 10.0.0.1", "bar 0 NONE MX 10 x"] if sn == "UPDATE" else ["foo ANY A", "foo ANY ANY", "foo NONE A", "foo 0 IN A 10.0.0.1"]))
+                else:
+                    lines.append(rng.choice(MT_RR[:6] + MT_RR[7:10] + MT_RR[11:14]))
+            elif sn in ("QUESTION", "ZONE"):
+                lines.append(rng.choice(MT_Q))
+            elif upd and sn != "ADDITIONAL":
+                lines.append(rng.choice(MT_UPD + MT_RR[:6]))
+            else:
+                lines.append(rng.choice(MT_RR))
+    if rng.random() < 0.15:
+        lines.insert(rng.randrange(len(lines) + 1), rng.choice(["", ";HEADER", "; just a comment", "id 7"]))
+    t = "\n".join(lines) + rng.choice(["\n", "", "\n\n"])
+    if rng.random() < 0.25:
+        toks = t.split(" ")
+        i = rng.randrange(len(toks))
+        toks[i] = rng.choice(["", "0", "300", "IN", "A", "ANY", "NONE", "(", ")", "\"", "\\", ";", "@", "x.", "..", "\n", "QR", "TYPE1", "65536", "-1", "a" * 64])
+        t = " ".join(toks)
+    return t
+
+
+def msgtext_cases(ctx):
+    rng = ctx.rng
+    for _ in range(ctx.n(500, 6000)):
+        t = gen_msgtext(rng)
+        o = rng.choice([None, None, [b"example", b""], [b""]])
+        yield "msg_text_model", [63, 1, enc(t), rng.randrange(2), o, rng.randrange(2)]
+
+
 def cases(ctx):
     yield from zone_model_cases(ctx)
+    yield from msgtext_cases(ctx)
     rng = ctx.rng
     s = P.load_seeds()
     wires = [w for w in s.msg_wires] + [r[3] for r in s.rdatas if len(r[3]) > 3]
@@ -712,6 +853,9 @@ def oracle(ctx, kind, case, out):
     elif op in (31, 32, 50, 60):
         if foreign(out):
             fail("non-library exception: " + out.text)
+    elif op == 63:
+        if foreign(out):
+            fail("dns.message.from_text raised a non-library exception: " + out.text)
     elif op == 62:
         # C09's codes: 107 = the documented zone-semantic ValueError
         if isinstance(out, Err) and (out.code >= 100 or out.code < 0) and out.code not in (107, 998):
